@@ -3,6 +3,7 @@ package props
 import (
 	"bytes"
 	"fmt"
+	"github.com/itchio/lake"
 	"path/filepath"
 	"strings"
 
@@ -201,7 +202,15 @@ func c08Run(c lib.Case, env *lib.Env) lib.Result {
 	old.Materialize(oldDir)
 	nw.Materialize(newDir)
 	lib.StoredOldSig = s.StoredSig
-	dr, err := lib.DiffDirs(oldDir, newDir, lib.Comp{Algo: "none"}, nil, nil, nil)
+	var wrap lib.PoolWrap
+	if c.ID%3 == 1 {
+		// the new build is read through a pool whose reads come in irregular short pieces
+		wrap = func(p lake.Pool) lake.Pool {
+			return &lib.ShortReadPool{Inner: p, Rng: lib.NewRng(lib.Mix(s.Seed, 88)), EOFWithData: c.ID%2 == 0}
+		}
+		res.Add("diffs_over_a_short_reading_source_pool", 1)
+	}
+	dr, err := lib.DiffDirs(oldDir, newDir, lib.Comp{Algo: "none"}, wrap, nil, nil)
 	lib.StoredOldSig = false
 	if err != nil {
 		res.Violate("diff-error", err.Error())
@@ -341,7 +350,7 @@ func init() {
 	lib.Register(&lib.Property{
 		ID:          "C08",
 		Level:       "exploration",
-		Rule:        "builds of 1..6 high-entropy files (100 bytes .. 5 MiB+3, one 40 MiB file in thorough) and derivations: identical build, rename all, duplicate x3 (with/without original), contents rotated between existing paths, an existing path overwritten by a copy of another old file, k in 1..4 localized edits (overwrite / insertion / deletion of {1,10,1000,B-1,B,B+1,100000,300000} bytes at offsets inside the first block, at block boundaries, inside the last two blocks, anywhere), mixed. Oracle: per-file DATA / BLOCK_RANGE accounting from the independently decoded patch, cross-checked with DiffContext.FreshBytes/ReusedBytes; files equal to an old file carry 0 DATA bytes; fresh <= introduced + (2k+2)*64KiB per edited file. distinct = distinct (derivation, k, file count, big)",
+		Rule:        "builds of 1..6 high-entropy files (100 bytes .. 5 MiB+3, one 40 MiB file in thorough) and derivations: identical build, rename all, duplicate x3 (with/without original), contents rotated between existing paths, an existing path overwritten by a copy of another old file, k in 1..4 localized edits (overwrite / insertion / deletion of {1,10,1000,B-1,B,B+1,100000,300000} bytes at offsets inside the first block, at block boundaries, inside the last two blocks, anywhere), mixed. A third of the diffs read the new build through a pool that returns irregular short reads (also with the last bytes together with EOF). Oracle: per-file DATA / BLOCK_RANGE accounting from the independently decoded patch, cross-checked with DiffContext.FreshBytes/ReusedBytes; files equal to an old file carry 0 DATA bytes; fresh <= introduced + (2k+2)*64KiB per edited file. distinct = distinct (derivation, k, file count, big)",
 		Assumptions: []string{"the bound is evaluated on high-entropy content only (the statement's domain)", "introduced = bytes inserted or overwritten by the generator; deletions introduce 0"},
 		Cases:       c08Cases,
 		Run:         c08Run,
